@@ -881,6 +881,13 @@ func rsMsgServer(e *Env, items []zkItem) {
 		submit(ys, idx, pf2, "multi_one_wrong")
 		submit(ys, append(append([]int64{}, idx...), int64(n+r.N(3))), append(append([]int{}, pf...), r.N(n)), "index_overflow")
 		submit(ys, idx, pf[:k-1], "len_mismatch")
+		// the SAME proof bytes twice in one message, the second time against another (or a nonexistent) shard: whatever a handler
+		// remembers about a proof it has verified, a proof is only good for the double hash it was verified against
+		j2 := (i + 1 + r.N(n-1)) % n
+		submit(ys, []int64{int64(i), int64(j2)}, []int{i, i}, "repeat_other_shard")
+		if q%2 == 0 {
+			submit(ys, []int64{int64(i), int64(n + r.N(3))}, []int{i, i}, "repeat_out_of_range")
+		}
 	}
 	// stored double hash in a non-canonical encoding of the same field element (known finding)
 	ys2 := append([][]byte{}, ys...)
